@@ -339,6 +339,29 @@ def hierC (idx : Nat → Nat) (c : Caller) : Prop :=
   | .gsHRelW _ => True
   | .unwind => True
 
+
+/-! ### trace vocabulary for single flight -/
+
+/-- 1 if the event is a completed getter run that populated key `k` -/
+def evPop (k : Nat) : Ev → Nat
+  | .cpop k' _ => if k' = k then 1 else 0
+  | _ => 0
+
+/-- 1 if the event removed the cached entry of key `k` -/
+def evRmv (k : Nat) : Ev → Nat
+  | .crmv k' true => if k' = k then 1 else 0
+  | _ => 0
+
+def popCount (k : Nat) : List (Nat × Ev) → Nat
+  | [] => 0
+  | e :: t => evPop k e.2 + popCount k t
+
+def rmvCount (k : Nat) : List (Nat × Ev) → Nat
+  | [] => 0
+  | e :: t => evRmv k e.2 + rmvCount k t
+
+def cachedN (cache : Nat → Option Nat) (k : Nat) : Nat := if (cache k).isSome then 1 else 0
+
 /-! ### DiskCacher.get_set over a file system modelled as a map key ↦ bytes -/
 
 /-- what the getter + gzip writer manage to put on disk -/
